@@ -93,7 +93,7 @@ fn line_starts(text: &str) -> Vec<usize> {
 }
 
 /// The complete, seed-independent list of fault plans of one section for one corpus entry
-fn universe(section: &str, fs: &FsSpec, loaded: &Loaded, entry_index: usize) -> Vec<(String, Vec<Fault>)> {
+fn universe(section: &str, fs: &FsSpec, loaded: &Loaded, entry_key: u64) -> Vec<(String, Vec<Fault>)> {
     let mut out: Vec<(String, Vec<Fault>)> = Vec::new();
     let file = |f: &str| Sel::File(f.to_string());
     match section {
@@ -133,7 +133,8 @@ fn universe(section: &str, fs: &FsSpec, loaded: &Loaded, entry_index: usize) -> 
             }
         }
         "flip" => {
-            let c = (entry_index as u64 * 13) % 97;
+            // lattice phase from the entry's label, so that adding corpus entries does not move it
+            let c = entry_key % 97;
             for f in &loaded.files {
                 let len = fs.files[f].len() as u64;
                 let mut o = c;
@@ -270,9 +271,9 @@ fn universe(section: &str, fs: &FsSpec, loaded: &Loaded, entry_index: usize) -> 
             let per_entry = 1200u64;
             let singles: Vec<Vec<(String, Vec<Fault>)>> = ["short-read", "flip", "lines", "file-kinds"]
                 .iter()
-                .map(|s| universe(s, fs, loaded, entry_index))
+                .map(|s| universe(s, fs, loaded, entry_key))
                 .collect();
-            let mut rng = Rng::new(UNIVERSE_SEED).sub_n("combo", entry_index as u64);
+            let mut rng = Rng::new(UNIVERSE_SEED).sub_n("combo", entry_key);
             for _ in 0..per_entry {
                 let n = rng.range(2, 3);
                 let mut kinds: Vec<usize> = (0..singles.len()).collect();
@@ -401,7 +402,7 @@ pub fn cases(ctx: &Ctx, section: &str, i: u64) -> Vec<Case> {
             let e = &ctx.corpus.entries[entry_index];
             let fs = &ctx.corpus.trees[e.tree];
             let loaded = pre_run(fs, &entry_task(ctx, entry_index, 0));
-            let uni = universe(s, fs, &loaded, entry_index);
+            let uni = universe(s, fs, &loaded, crate::prng::fnv64(e.label.as_bytes()));
             let stride = if ctx.tier == Tier::Quick { quick_stride(s) } else { 1 };
             let residue = ctx.rng().sub(s).sub_n("residue", entry_index as u64).below(stride);
             let mut out = Vec::new();
@@ -436,7 +437,7 @@ pub fn faulted_scenario(ctx: &Ctx, rng: &mut Rng, i: u64) -> (String, FsSpec, Ta
         let fs = ctx.corpus.trees[e.tree].clone();
         let loaded = pre_run(&fs, &entry_task(ctx, entry_index, 0));
         let section = *rng.pick(&["load-error", "short-read", "flip", "lines", "file-kinds"]);
-        let uni = universe(section, &fs, &loaded, entry_index);
+        let uni = universe(section, &fs, &loaded, crate::prng::fnv64(e.label.as_bytes()));
         let mut t = entry_task(ctx, entry_index, rng.below(3));
         let mut label = format!("W4:{}@{}", e.label, t.target.name());
         if !uni.is_empty() {
